@@ -249,7 +249,7 @@ func (w *world) newSandbox(p *podT) *sandbox {
 	sb.handle = "k8s-pod-network." + sb.id
 	if w.src.Chance(400, "sandbox_two_addrs") {
 		sb.want = 2
-		sb.single = w.src.Chance(600, "k8s_reports_one_addr")
+		sb.single = w.src.Chance(700, "k8s_reports_one_addr")
 	}
 	p.cur = sb
 	p.nSand++
@@ -656,7 +656,11 @@ func (i *informer) run(ctx context.Context) {
 		}
 		if !w.quiesced && src.Chance(w.pInfStall, "inf_stall") {
 			g := int(w.grace / time.Millisecond)
-			ms := []int{1000, 3000, g / 2, g + 2000, 2*g + 3000}[src.Weighted([]int{3, 3, 2, 2, 2}, "inf_stall_len")]
+			wts := []int{3, 3, 2, 2, 2}
+			if w.infLongStalls {
+				wts = []int{1, 1, 2, 4, 4}
+			}
+			ms := []int{1000, 3000, g / 2, g + 2000, 2*g + 3000}[src.Weighted(wts, "inf_stall_len")]
 			w.r.Fault("informer_stall")
 			w.r.Logf("  informer stalls for %dms", ms)
 			time.Sleep(time.Duration(ms) * time.Millisecond)
